@@ -44,6 +44,7 @@ func c02Program(r gen.R) (*sl.Program, []string, map[int]string) {
 		}
 	}
 	for ph := 1; ph <= 5; ph++ {
+		phaseStart := len(p.Items)
 		counter := &sl.Rule{ID: 100 + ph, Phase: ph, Severity: -1, Disruptive: "pass", Setvars: []sl.Setvar{{Key: fmt.Sprintf("p%d", ph), Kind: "+", Val: "1"}}}
 		nd := r.IntN(3)
 		var rules []*sl.Rule
@@ -86,8 +87,17 @@ func c02Program(r gen.R) (*sl.Program, []string, map[int]string) {
 			mode := gen.Pick(r, []string{"DetectionOnly", "Off", "On"})
 			id := 300 + ph
 			sw[id] = mode
-			p.Items = append(p.Items, sl.Item{Rule: &sl.Rule{ID: id, Phase: ph, Severity: -1, Disruptive: "pass", Targets: []sl.Sel{{Var: "ARGS_GET", Kind: 1, Key: name}},
-				Op: &sl.Op{Name: "streq", Arg: "1"}, Ctl: []string{"ruleEngine=" + mode}}})
+			swRule := sl.Item{Rule: &sl.Rule{ID: id, Phase: ph, Severity: -1, Disruptive: "pass", Targets: []sl.Sel{{Var: "ARGS_GET", Kind: 1, Key: name}},
+				Op: &sl.Op{Name: "streq", Arg: "1"}, Ctl: []string{"ruleEngine=" + mode}}}
+			// half of the switches sit at the end of their phase, the others anywhere among the rules of the phase:
+			// the mode in force when a disruptive rule matches decides, not the mode at the start of the phase
+			at := len(p.Items)
+			if gen.Chance(r, 0.5) {
+				at = phaseStart + r.IntN(len(p.Items)-phaseStart+1)
+			}
+			p.Items = append(p.Items, sl.Item{})
+			copy(p.Items[at+1:], p.Items[at:])
+			p.Items[at] = swRule
 		}
 	}
 	return p, steers, sw
@@ -134,16 +144,23 @@ func c02Judge(w *fw.W, c *c02Case, waf coraza.WAF) {
 		w.Trace(c)
 	}
 	mode := c.Program.Engine
-	modes := make([]string, 0, len(c.Seq)) // engine mode in force when call i started
+	modes := make([]string, 0, len(c.Seq))     // engine mode in force when call i started
+	intrModes := make([]string, 0, len(c.Seq)) // engine mode in force when the rule whose interruption call i returned fired
 	seenFired := 0
 	got := sl.ExecSeqHook(waf, c.Req, c.Seq, func(i int, tx types.Transaction, cr *sl.CallResult) {
 		modes = append(modes, mode)
+		atIntr := mode
 		mrs := tx.MatchedRules()
 		for _, mr := range mrs[seenFired:] {
+			// a switch may sit anywhere in its phase: what counts for a disruptive rule is the mode when it fires
+			if cr.Intr != nil && mr.Rule().ID() == cr.Intr.RuleID {
+				atIntr = mode
+			}
 			if m, ok := c.Switch[mr.Rule().ID()]; ok {
 				mode = m
 			}
 		}
+		intrModes = append(intrModes, atIntr)
 		seenFired = len(mrs)
 	})
 	w.Eval(1)
@@ -204,11 +221,16 @@ func c02Judge(w *fw.W, c *c02Case, waf coraza.WAF) {
 	}
 	// I3 / I4: engine modes in force
 	for i, cr := range got.Calls {
+		if modes[i] == "DetectionOnly" {
+			w.Count("calls_in_detection_only", 1)
+		}
+		if modes[i] != intrModes[i] {
+			w.Count("interruptions_after_mid_phase_switch", 1)
+		}
 		switch modes[i] {
 		case "DetectionOnly":
-			w.Count("calls_in_detection_only", 1)
 			before := i > 0 && got.Calls[i-1].Interrupted
-			if !before && (cr.Intr != nil || cr.Interrupted) {
+			if !before && (cr.Intr != nil || cr.Interrupted) && intrModes[i] == "DetectionOnly" {
 				switched := modes[i] != c.Program.Engine
 				cl := "detection-only-returns-interruption"
 				if switched {
